@@ -211,3 +211,289 @@ Example C10_ex_returns_3d : exists out, bandpass3 1 ex_par ex_par ex_par (- (1 #
   rect3 2 3 4 ex_img3 /\ rect3 2 3 4 out /\ px3 out 0 1 1 == - (1 # 36) /\ px3 out 1 1 2 == - (161 # 1944) /\
   px3 out 0 0 0 == 0.
 Proof. eexists. split. vm_compute. reflexivity. repeat split; try reflexivity; repeat constructor. Qed.
+
+(* ===================== ROUTE T: the generated preprocessing code =====================
+   Gen/preproc.v is regenerated on every run of the check by tools/py2coq_preproc.py
+   from the CURRENT trackpy/preprocessing.py (lowpass, boxcar, bandpass) and
+   trackpy/masks.py (gaussian_kernel), statement by statement (vocabulary and named
+   primitives: Model/PyPreproc.v).  The theorems below tie these generated functions
+   to the hand model above for ALL inputs, and restate the headline theorems for
+     py_bandpass nd np_exp image image_dtype lshort llong threshold truncate
+   where nd = nd2 / nd3 is the 2-D / 3-D array interface, np_exp : Q -> Q stands for
+   np.exp (arbitrary), lshort / llong are a scalar (PyScalar) or a sequence (PySeq),
+   threshold : option Q (None = the Python default).  The exponential table of the
+   hand model is  exp_table np_exp sigma truncate = [np_exp(n^2/(-2 sigma^2)) | n = 0..lw]
+   and  axis_of np_exp truncate lshort_a llong_a  the per-axis record built from it
+   (Model/BandpassGen.v).  A changed comparison, bound, constant, default, loop or message
+   in the source changes Gen/preproc.v and breaks these proofs (Proofs/BandpassGen.v). *)
+From Coq Require Import String.
+From TP Require Import Model.PyPreproc Model.BandpassGen Gen.preproc Proofs.BandpassGen.
+
+(* the tie: whatever validate_tuple makes of lshort and llong (scalar or per-axis), the
+   generated bandpass IS bandpass2 / bandpass3 of the hand model: same image or same error *)
+Theorem C10_gen_bandpass_2d : forall (np_exp : Q -> Q) (truncate : Q) (lshort : pyarg Q) (llong : pyarg Z)
+    (sy sx : Q) (ly lx : Z) (threshold : option Q) (image_dtype : np_dtype) (image : img2),
+  validate_tuple lshort 2 = Ret [sy; sx] -> validate_tuple llong 2 = Ret [ly; lx] ->
+  py_bandpass nd2 np_exp image image_dtype lshort llong threshold truncate =
+  res_of_outcome (bandpass2 truncate (axis_of np_exp truncate sy ly) (axis_of np_exp truncate sx lx)
+                            (effective_threshold image_dtype threshold) image).
+Proof. exact gen_bandpass2_eq. Qed.
+Print Assumptions C10_gen_bandpass_2d.
+
+Theorem C10_gen_bandpass_3d : forall (np_exp : Q -> Q) (truncate : Q) (lshort : pyarg Q) (llong : pyarg Z)
+    (sz sy sx : Q) (lz ly lx : Z) (threshold : option Q) (image_dtype : np_dtype) (image : img3),
+  validate_tuple lshort 3 = Ret [sz; sy; sx] -> validate_tuple llong 3 = Ret [lz; ly; lx] ->
+  py_bandpass nd3 np_exp image image_dtype lshort llong threshold truncate =
+  res_of_outcome (bandpass3 truncate (axis_of np_exp truncate sz lz) (axis_of np_exp truncate sy ly)
+                            (axis_of np_exp truncate sx lx) (effective_threshold image_dtype threshold) image).
+Proof. exact gen_bandpass3_eq. Qed.
+Print Assumptions C10_gen_bandpass_3d.
+
+(* threshold=None means 1 for integer images and 1/255 for float images; any explicit
+   threshold - 0 included - is used as given *)
+Theorem C10_gen_default_threshold : forall (A : Type) (nd : ndarray A) np_exp image image_dtype lshort llong threshold truncate,
+  py_bandpass nd np_exp image image_dtype lshort llong threshold truncate =
+  py_bandpass nd np_exp image image_dtype lshort llong
+              (Some (match threshold with
+                     | Some t => t
+                     | None => match image_dtype with np_integer_dtype => 1 | np_float_dtype => 1 # 255 end
+                     end)) truncate.
+Proof. exact (@gen_bandpass_threshold). Qed.
+Print Assumptions C10_gen_default_threshold.
+
+(* a per-axis argument of the wrong length is rejected with validate_tuple's error *)
+Theorem C10_gen_bad_length : forall (A : Type) (nd : ndarray A) np_exp image image_dtype lshort llong threshold truncate m,
+  validate_tuple lshort (nd_ndim nd) = RaiseValueError m ->
+  py_bandpass nd np_exp image image_dtype lshort llong threshold truncate = RaiseValueError m.
+Proof. exact (@gen_bandpass_bad_lshort). Qed.
+Print Assumptions C10_gen_bad_length.
+
+(* the generated gaussian_kernel, lowpass and boxcar are the hand model's *)
+Theorem C10_gen_kernel : forall (np_exp : Q -> Q) (sigma truncate : Q) (llong : Z),
+  py_gaussian_kernel np_exp sigma truncate = kern truncate (axis_of np_exp truncate sigma llong).
+Proof. exact gen_kernel_eq. Qed.
+Print Assumptions C10_gen_kernel.
+
+Theorem C10_gen_lowpass_2d : forall np_exp truncate sigma sy sx ly lx image,
+  validate_tuple sigma 2 = Ret [sy; sx] ->
+  py_lowpass nd2 np_exp image sigma truncate =
+  Ret (lowpass2 truncate (axis_of np_exp truncate sy ly) (axis_of np_exp truncate sx lx) image).
+Proof. exact gen_lowpass2_eq. Qed.
+Print Assumptions C10_gen_lowpass_2d.
+
+Theorem C10_gen_lowpass_3d : forall np_exp truncate sigma sz sy sx lz ly lx image,
+  validate_tuple sigma 3 = Ret [sz; sy; sx] ->
+  py_lowpass nd3 np_exp image sigma truncate =
+  Ret (lowpass3 truncate (axis_of np_exp truncate sz lz) (axis_of np_exp truncate sy ly) (axis_of np_exp truncate sx lx) image).
+Proof. exact gen_lowpass3_eq. Qed.
+Print Assumptions C10_gen_lowpass_3d.
+
+Theorem C10_gen_boxcar_2d : forall size_arg py px image,
+  validate_tuple size_arg 2 = Ret [size py; size px] ->
+  py_boxcar nd2 image size_arg =
+  match boxcar2 py px image with Some out => Ret out | None => RaiseValueError MSG_ODD end.
+Proof. exact gen_boxcar2_eq. Qed.
+Print Assumptions C10_gen_boxcar_2d.
+
+Theorem C10_gen_boxcar_3d : forall size_arg pz py px image,
+  validate_tuple size_arg 3 = Ret [size pz; size py; size px] ->
+  py_boxcar nd3 image size_arg =
+  match boxcar3 pz py px image with Some out => Ret out | None => RaiseValueError MSG_ODD end.
+Proof. exact gen_boxcar3_eq. Qed.
+Print Assumptions C10_gen_boxcar_3d.
+
+(* the default arguments in the source *)
+Theorem C10_gen_defaults :
+  py_gaussian_kernel_default_truncate = 4 /\ py_lowpass_default_sigma = PyScalar 1 /\ py_lowpass_default_truncate = 4 /\
+  py_bandpass_default_threshold = None /\ py_bandpass_default_truncate = 4.
+Proof. exact gen_defaults. Qed.
+Print Assumptions C10_gen_defaults.
+
+(* the generated kernel is the truncated normalised Gaussian: 2l+1 weights, l = floor(truncate*sigma + 1/2),
+   the weight at offset x is np_exp(x^2/(-2 sigma^2)) / sum_{y=-l..l} np_exp(y^2/(-2 sigma^2)) *)
+Theorem C10_gen_kernel_is_gaussian : forall (np_exp : Q -> Q) (truncate sigma : Q),
+  0 <= truncate -> Qle_bool sigma 0 = false ->
+  List.length (py_gaussian_kernel np_exp sigma truncate) = Z.to_nat (2 * gauss_hw truncate sigma + 1) /\
+  forall x, (- gauss_hw truncate sigma <= x <= gauss_hw truncate sigma)%Z ->
+    kf (py_gaussian_kernel np_exp sigma truncate) x == gauss_w truncate sigma (exp_table np_exp sigma truncate) x.
+Proof. exact gen_kernel_is_gaussian. Qed.
+Print Assumptions C10_gen_kernel_is_gaussian.
+
+Theorem C10_gen_exp_table : forall (np_exp : Q -> Q) (sigma truncate : Q) (x : Z),
+  (Z.abs x <= half_width sigma truncate)%Z ->
+  gtab (exp_table np_exp sigma truncate) x = np_exp (py_div (inject_Z (x ^ 2)) (- (2) * sigma ^ 2)).
+Proof. exact gen_exp_table. Qed.
+Print Assumptions C10_gen_exp_table.
+
+(* ---- the headline theorems, for the generated bandpass (2-D) ---- *)
+Theorem C10_gen_pointwise_2d : forall (np_exp : Q -> Q) (lshort : pyarg Q) (llong : pyarg Z) (sy sx : Q) (ly lx : Z),
+  validate_tuple lshort 2 = Ret [sy; sx] -> validate_tuple llong 2 = Ret [ly; lx] ->
+  forall (H W : nat) (truncate : Q), 0 <= truncate -> (1 <= ly)%Z -> (1 <= lx)%Z ->
+  forall (threshold : option Q) (image_dtype : np_dtype) (image out : img2),
+  rect2 H W image -> py_bandpass nd2 np_exp image image_dtype lshort llong threshold truncate = Ret out ->
+  rect2 H W out /\
+  forall i j, (0 <= i < Z.of_nat H)%Z -> (0 <= j < Z.of_nat W)%Z ->
+    px2 out i j == documented2 H W truncate sy sx (exp_table np_exp sy truncate) (exp_table np_exp sx truncate)
+                               ly lx (effective_threshold image_dtype threshold) image i j.
+Proof. exact gen_bandpass2_pointwise. Qed.
+Print Assumptions C10_gen_pointwise_2d.
+
+Theorem C10_gen_sign_2d : forall (np_exp : Q -> Q) (lshort : pyarg Q) (llong : pyarg Z) (sy sx : Q) (ly lx : Z),
+  validate_tuple lshort 2 = Ret [sy; sx] -> validate_tuple llong 2 = Ret [ly; lx] ->
+  forall (H W : nat) (truncate : Q), 0 <= truncate -> (1 <= ly)%Z -> (1 <= lx)%Z ->
+  forall threshold image_dtype image out i j,
+  rect2 H W image -> py_bandpass nd2 np_exp image image_dtype lshort llong threshold truncate = Ret out ->
+  (0 <= i < Z.of_nat H)%Z -> (0 <= j < Z.of_nat W)%Z ->
+  (px2 out i j == 0 \/ effective_threshold image_dtype threshold <= px2 out i j) /\
+  (0 <= effective_threshold image_dtype threshold -> 0 <= px2 out i j) /\
+  (px2 out i j < 0 <->
+     effective_threshold image_dtype threshold <=
+       difference2 H W truncate sy sx (exp_table np_exp sy truncate) (exp_table np_exp sx truncate) ly lx image i j /\
+     difference2 H W truncate sy sx (exp_table np_exp sy truncate) (exp_table np_exp sx truncate) ly lx image i j < 0).
+Proof. exact gen_bandpass2_sign. Qed.
+Print Assumptions C10_gen_sign_2d.
+
+Theorem C10_gen_homogeneous_2d : forall (np_exp : Q -> Q) (lshort : pyarg Q) (llong : pyarg Z) (sy sx : Q) (ly lx : Z),
+  validate_tuple lshort 2 = Ret [sy; sx] -> validate_tuple llong 2 = Ret [ly; lx] ->
+  forall H W truncate c threshold image_dtype image out,
+  0 <= truncate -> (1 <= ly)%Z -> (1 <= lx)%Z -> 0 < c ->
+  rect2 H W image -> py_bandpass nd2 np_exp image image_dtype lshort llong (Some threshold) truncate = Ret out ->
+  exists out', py_bandpass nd2 np_exp (scale2 c image) image_dtype lshort llong (Some (c * threshold)) truncate = Ret out' /\
+    rect2 H W out' /\
+    forall i j, (0 <= i < Z.of_nat H)%Z -> (0 <= j < Z.of_nat W)%Z -> px2 out' i j == c * px2 out i j.
+Proof. exact gen_bandpass2_homogeneous. Qed.
+Print Assumptions C10_gen_homogeneous_2d.
+
+Theorem C10_gen_transpose_2d : forall np_exp H W truncate lshort llong lshortT llongT sy sx ly lx threshold image_dtype A B outA outB,
+  validate_tuple lshort 2 = Ret [sy; sx] -> validate_tuple llong 2 = Ret [ly; lx] ->
+  validate_tuple lshortT 2 = Ret [sx; sy] -> validate_tuple llongT 2 = Ret [lx; ly] ->
+  0 <= truncate -> (1 <= ly)%Z -> (1 <= lx)%Z ->
+  transposed2 H W A B ->
+  py_bandpass nd2 np_exp A image_dtype lshort llong threshold truncate = Ret outA ->
+  py_bandpass nd2 np_exp B image_dtype lshortT llongT threshold truncate = Ret outB ->
+  rect2 H W outA /\ rect2 W H outB /\
+  forall i j, (0 <= i < Z.of_nat H)%Z -> (0 <= j < Z.of_nat W)%Z -> px2 outB j i == px2 outA i j.
+Proof. exact gen_bandpass2_transpose. Qed.
+Print Assumptions C10_gen_transpose_2d.
+
+(* the guard is per axis (llong_a <= lshort_a on SOME axis), not a comparison of the tuples *)
+Theorem C10_gen_guard_2d : forall (np_exp : Q -> Q) (lshort : pyarg Q) (llong : pyarg Z) (sy sx : Q) (ly lx : Z),
+  validate_tuple lshort 2 = Ret [sy; sx] -> validate_tuple llong 2 = Ret [ly; lx] ->
+  forall truncate threshold image_dtype image,
+  py_bandpass nd2 np_exp image image_dtype lshort llong threshold truncate = RaiseValueError MSG_SCALE <->
+  (inject_Z ly <= sy \/ inject_Z lx <= sx).
+Proof. exact gen_bandpass2_guard. Qed.
+Print Assumptions C10_gen_guard_2d.
+
+Theorem C10_gen_outcome_2d : forall (np_exp : Q -> Q) (lshort : pyarg Q) (llong : pyarg Z) (sy sx : Q) (ly lx : Z),
+  validate_tuple lshort 2 = Ret [sy; sx] -> validate_tuple llong 2 = Ret [ly; lx] ->
+  forall truncate threshold image_dtype image,
+  match py_bandpass nd2 np_exp image image_dtype lshort llong threshold truncate with
+  | RaiseValueError m =>
+      (m = MSG_SCALE /\ (inject_Z ly <= sy \/ inject_Z lx <= sx)) \/
+      (m = MSG_ODD /\ (sy < inject_Z ly /\ sx < inject_Z lx) /\ (Z.odd ly = false \/ Z.odd lx = false))
+  | Ret _ => (sy < inject_Z ly /\ sx < inject_Z lx) /\ Z.odd ly = true /\ Z.odd lx = true
+  end.
+Proof. exact gen_bandpass2_outcome. Qed.
+Print Assumptions C10_gen_outcome_2d.
+
+(* ---- the same for 3-D ---- *)
+Theorem C10_gen_pointwise_3d : forall (np_exp : Q -> Q) (lshort : pyarg Q) (llong : pyarg Z) (sz sy sx : Q) (lz ly lx : Z),
+  validate_tuple lshort 3 = Ret [sz; sy; sx] -> validate_tuple llong 3 = Ret [lz; ly; lx] ->
+  forall (D H W : nat) (truncate : Q), 0 <= truncate -> (1 <= lz)%Z -> (1 <= ly)%Z -> (1 <= lx)%Z ->
+  forall (threshold : option Q) (image_dtype : np_dtype) (image out : img3),
+  rect3 D H W image -> py_bandpass nd3 np_exp image image_dtype lshort llong threshold truncate = Ret out ->
+  rect3 D H W out /\
+  forall i j k, (0 <= i < Z.of_nat D)%Z -> (0 <= j < Z.of_nat H)%Z -> (0 <= k < Z.of_nat W)%Z ->
+    px3 out i j k == documented3 D H W truncate sz sy sx (exp_table np_exp sz truncate) (exp_table np_exp sy truncate)
+                                 (exp_table np_exp sx truncate) lz ly lx (effective_threshold image_dtype threshold) image i j k.
+Proof. exact gen_bandpass3_pointwise. Qed.
+Print Assumptions C10_gen_pointwise_3d.
+
+Theorem C10_gen_sign_3d : forall (np_exp : Q -> Q) (lshort : pyarg Q) (llong : pyarg Z) (sz sy sx : Q) (lz ly lx : Z),
+  validate_tuple lshort 3 = Ret [sz; sy; sx] -> validate_tuple llong 3 = Ret [lz; ly; lx] ->
+  forall (D H W : nat) (truncate : Q), 0 <= truncate -> (1 <= lz)%Z -> (1 <= ly)%Z -> (1 <= lx)%Z ->
+  forall threshold image_dtype image out i j k,
+  rect3 D H W image -> py_bandpass nd3 np_exp image image_dtype lshort llong threshold truncate = Ret out ->
+  (0 <= i < Z.of_nat D)%Z -> (0 <= j < Z.of_nat H)%Z -> (0 <= k < Z.of_nat W)%Z ->
+  (px3 out i j k == 0 \/ effective_threshold image_dtype threshold <= px3 out i j k) /\
+  (0 <= effective_threshold image_dtype threshold -> 0 <= px3 out i j k) /\
+  (px3 out i j k < 0 <->
+     effective_threshold image_dtype threshold <=
+       difference3 D H W truncate sz sy sx (exp_table np_exp sz truncate) (exp_table np_exp sy truncate)
+                   (exp_table np_exp sx truncate) lz ly lx image i j k /\
+     difference3 D H W truncate sz sy sx (exp_table np_exp sz truncate) (exp_table np_exp sy truncate)
+                 (exp_table np_exp sx truncate) lz ly lx image i j k < 0).
+Proof. exact gen_bandpass3_sign. Qed.
+Print Assumptions C10_gen_sign_3d.
+
+Theorem C10_gen_homogeneous_3d : forall (np_exp : Q -> Q) (lshort : pyarg Q) (llong : pyarg Z) (sz sy sx : Q) (lz ly lx : Z),
+  validate_tuple lshort 3 = Ret [sz; sy; sx] -> validate_tuple llong 3 = Ret [lz; ly; lx] ->
+  forall D H W truncate c threshold image_dtype image out,
+  0 <= truncate -> (1 <= lz)%Z -> (1 <= ly)%Z -> (1 <= lx)%Z -> 0 < c ->
+  rect3 D H W image -> py_bandpass nd3 np_exp image image_dtype lshort llong (Some threshold) truncate = Ret out ->
+  exists out', py_bandpass nd3 np_exp (scale3 c image) image_dtype lshort llong (Some (c * threshold)) truncate = Ret out' /\
+    rect3 D H W out' /\
+    forall i j k, (0 <= i < Z.of_nat D)%Z -> (0 <= j < Z.of_nat H)%Z -> (0 <= k < Z.of_nat W)%Z ->
+      px3 out' i j k == c * px3 out i j k.
+Proof. exact gen_bandpass3_homogeneous. Qed.
+Print Assumptions C10_gen_homogeneous_3d.
+
+Theorem C10_gen_transpose_3d : forall np_exp D H W truncate lshort llong lshortT llongT sz sy sx lz ly lx threshold image_dtype A B outA outB,
+  validate_tuple lshort 3 = Ret [sz; sy; sx] -> validate_tuple llong 3 = Ret [lz; ly; lx] ->
+  validate_tuple lshortT 3 = Ret [sx; sy; sz] -> validate_tuple llongT 3 = Ret [lx; ly; lz] ->
+  0 <= truncate -> (1 <= lz)%Z -> (1 <= ly)%Z -> (1 <= lx)%Z ->
+  transposed3 D H W A B ->
+  py_bandpass nd3 np_exp A image_dtype lshort llong threshold truncate = Ret outA ->
+  py_bandpass nd3 np_exp B image_dtype lshortT llongT threshold truncate = Ret outB ->
+  rect3 D H W outA /\ rect3 W H D outB /\
+  forall i j k, (0 <= i < Z.of_nat D)%Z -> (0 <= j < Z.of_nat H)%Z -> (0 <= k < Z.of_nat W)%Z ->
+    px3 outB k j i == px3 outA i j k.
+Proof. exact gen_bandpass3_transpose. Qed.
+Print Assumptions C10_gen_transpose_3d.
+
+Theorem C10_gen_guard_3d : forall (np_exp : Q -> Q) (lshort : pyarg Q) (llong : pyarg Z) (sz sy sx : Q) (lz ly lx : Z),
+  validate_tuple lshort 3 = Ret [sz; sy; sx] -> validate_tuple llong 3 = Ret [lz; ly; lx] ->
+  forall truncate threshold image_dtype image,
+  py_bandpass nd3 np_exp image image_dtype lshort llong threshold truncate = RaiseValueError MSG_SCALE <->
+  (inject_Z lz <= sz \/ inject_Z ly <= sy \/ inject_Z lx <= sx).
+Proof. exact gen_bandpass3_guard. Qed.
+Print Assumptions C10_gen_guard_3d.
+
+Theorem C10_gen_outcome_3d : forall (np_exp : Q -> Q) (lshort : pyarg Q) (llong : pyarg Z) (sz sy sx : Q) (lz ly lx : Z),
+  validate_tuple lshort 3 = Ret [sz; sy; sx] -> validate_tuple llong 3 = Ret [lz; ly; lx] ->
+  forall truncate threshold image_dtype image,
+  match py_bandpass nd3 np_exp image image_dtype lshort llong threshold truncate with
+  | RaiseValueError m =>
+      (m = MSG_SCALE /\ (inject_Z lz <= sz \/ inject_Z ly <= sy \/ inject_Z lx <= sx)) \/
+      (m = MSG_ODD /\ (sz < inject_Z lz /\ sy < inject_Z ly /\ sx < inject_Z lx) /\
+                      (Z.odd lz = false \/ Z.odd ly = false \/ Z.odd lx = false))
+  | Ret _ => (sz < inject_Z lz /\ sy < inject_Z ly /\ sx < inject_Z lx) /\
+             Z.odd lz = true /\ Z.odd ly = true /\ Z.odd lx = true
+  end.
+Proof. exact gen_bandpass3_outcome. Qed.
+Print Assumptions C10_gen_outcome_3d.
+
+(* ---- non-vacuity for the generated code: a stand-in for np.exp (1/(1 - q), positive and
+   decreasing on q <= 0), scalar lshort = 1 and llong = 3 (validated to pairs), truncate = 1.
+   The kernel is 2/7, 3/7, 2/7.  On ex_img / 10 the default threshold of a float image (1/255)
+   zeroes pixel (0,1) whose unclipped value is 1/735, an explicit threshold 0 keeps it: an explicit
+   0 is NOT replaced by the default.  lshort = (1, 3), llong = (5, 3) is rejected (axis 1), although
+   the tuple (1, 3) is smaller than (5, 3); an even llong gives the other error. *)
+Definition ex_exp (q : Q) : Q := Qred (1 / (1 - q)).
+Definition ex_img_small : img2 := scale2 (1 # 10) ex_img.
+Example C10_gen_ex_validate : validate_tuple (PyScalar 1) 2 = Ret [1; 1] /\ validate_tuple (PyScalar 3%Z) 2 = Ret [3%Z; 3%Z] /\
+  validate_tuple (PySeq [1; 2; 3]) 2 = RaiseValueError MSG_LENGTH /\ py_gaussian_kernel ex_exp 1 1 = [2 # 7; 3 # 7; 2 # 7].
+Proof. repeat split. Qed.
+Example C10_gen_ex_returns : exists out out0,
+  py_bandpass nd2 ex_exp ex_img_small np_float_dtype (PyScalar 1) (PyScalar 3%Z) None 1 = Ret out /\
+  py_bandpass nd2 ex_exp ex_img_small np_float_dtype (PyScalar 1) (PyScalar 3%Z) (Some 0) 1 = Ret out0 /\
+  rect2 3 4 ex_img_small /\ rect2 3 4 out /\ px2 out 1 1 == 101 # 1470 /\ px2 out0 1 1 == 101 # 1470 /\
+  px2 out 0 1 == 0 /\ px2 out0 0 1 == 1 # 735.
+Proof. eexists. eexists. split. vm_compute. reflexivity. split. vm_compute. reflexivity.
+  repeat split; try reflexivity; repeat constructor. Qed.
+Example C10_gen_ex_errors :
+  py_bandpass nd2 ex_exp ex_img np_float_dtype (PySeq [1; 3]) (PySeq [5; 3]%Z) None 1 = RaiseValueError MSG_SCALE /\
+  py_bandpass nd2 ex_exp ex_img np_float_dtype (PySeq [1; 1]) (PySeq [4; 3]%Z) None 1 = RaiseValueError MSG_ODD /\
+  py_bandpass nd2 ex_exp ex_img np_float_dtype (PySeq [1; 1; 1]) (PySeq [3; 3]%Z) None 1 = RaiseValueError MSG_LENGTH.
+Proof. repeat split. Qed.
